@@ -12,6 +12,18 @@ import MidnightZK.Model.ModArith
 -/
 namespace MidnightZK.C06
 
+/-- Extended Euclid on `(r₀, r₁, t₀, t₁)`; returns the Bézout coefficient of the second argument
+of the initial call when the gcd is reached. -/
+def invLoop : Nat → Nat → Nat → Int → Int → Int
+  | 0, _, _, t0, _ => t0
+  | f + 1, r0, r1, t0, t1 =>
+    if r1 = 0 then t0 else invLoop f r1 (r0 % r1) t1 (t0 - (r0 / r1 : Nat) * t1)
+
+/-- Modular inverse by extended Euclid (`0 ↦ 0`); same value as `invMod` for a prime modulus,
+about five times faster in the compiled driver. -/
+def invModE (a p : Nat) : Nat :=
+  if a % p = 0 then 0 else (invLoop (2 * p.log2 + 4) p (a % p) 0 1 % (p : Int)).toNat
+
 /-- Curve `-x² + y² = 1 + d x² y²` over `𝔽_p`, scalar field of order `r` (prime subgroup order),
 cofactor `h`. -/
 structure EdCurve where
@@ -30,7 +42,7 @@ variable (E : EdCurve)
 def fadd (a b : Nat) : Nat := addMod a b E.p
 def fsub (a b : Nat) : Nat := subMod a b E.p
 def fmul (a b : Nat) : Nat := mulMod a b E.p
-def finv (a : Nat) : Nat := invMod a E.p
+def finv (a : Nat) : Nat := invModE a E.p
 
 /-- The neutral element `(0, 1)`. -/
 def id : Pt := (0, 1 % E.p)
@@ -45,8 +57,12 @@ def onCurve (P : Pt) : Bool :=
 `x₃ = (x₁y₂ + y₁x₂)/(1 + d x₁x₂y₁y₂)`, `y₃ = (y₁y₂ + x₁x₂)/(1 − d x₁x₂y₁y₂)`. -/
 def add (P Q : Pt) : Pt :=
   let e := E.fmul E.d (E.fmul (E.fmul P.1 Q.1) (E.fmul P.2 Q.2))
-  (E.fmul (E.fadd (E.fmul P.1 Q.2) (E.fmul P.2 Q.1)) (E.finv (E.fadd 1 e)),
-   E.fmul (E.fadd (E.fmul P.2 Q.2) (E.fmul P.1 Q.1)) (E.finv (E.fsub 1 e)))
+  let d1 := E.fadd 1 e
+  let d2 := E.fsub 1 e
+  -- one inversion for both denominators
+  let i := E.finv (E.fmul d1 d2)
+  (E.fmul (E.fadd (E.fmul P.1 Q.2) (E.fmul P.2 Q.1)) (E.fmul i d2),
+   E.fmul (E.fadd (E.fmul P.2 Q.2) (E.fmul P.1 Q.1)) (E.fmul i d1))
 
 /-- `p_plus_b_q`. -/
 def condAdd (Q S : Pt) (b : Bool) : Pt := if b then E.add Q S else Q
@@ -89,7 +105,7 @@ def mulByConstant (s : Nat) (P : Pt) : Pt :=
 def smulNat (n : Nat) (P : Pt) : Pt := if n = 0 then E.id else E.mul (minBitsLE n) P
 
 /-- `assign`: the witness is `P · h⁻¹ (mod r)`; the returned point is `h ·` that witness. -/
-def cofactorRoot (P : Pt) : Pt := E.smulNat (invMod (E.h % E.r) E.r) P
+def cofactorRoot (P : Pt) : Pt := E.smulNat (invModE (E.h % E.r) E.r) P
 
 /-! ## Cells written in the nine ECC columns -/
 
